@@ -90,14 +90,13 @@ Definition decode_mctp_control (p : list N) (calculated_pec : N) : rr decoded :=
   cr <-- get_mctp_control_packet p9 calculated_pec ;;
   ok (MCtpControl, ((9 + cr_off cr)%nat, length (cr_data cr))).
 
-(* the four non-control arms, smbus.rs:263-319; `shorten` is 0 except for the IANA arm (packet_len - 1) *)
-Definition decode_vendor_arm (p : list N) (calculated_pec : N) (mt : msg_type) (shorten : nat) : rr decoded :=
+(* the four non-control arms, smbus.rs:263-319 *)
+Definition decode_vendor_arm (p : list N) (calculated_pec : N) (mt : msg_type) : rr decoded :=
   plen <-- rlift (usub (length p) 1) ;;
   pc <-- rlift (index p plen) ;;
   if negb (pc =? calculated_pec) then err mt (DControlMessage CEInvalidPEC)
   else
-    e <-- rlift (usub plen shorten) ;;
-    pl <-- rlift (slice p 9 e) ;;
+    pl <-- rlift (slice p 9 plen) ;;
     ok (mt, (9%nat, length pl)).
 
 (* smbus.rs:248-322 *)
@@ -109,17 +108,19 @@ Definition decode_packet (p : list N) : rr decoded :=
   let calculated_pec := pec pre in
   match msg_type_from_u8 (get_field bh_msg_type bh) with
   | MCtpControl => decode_mctp_control p calculated_pec
-  | VendorDefinedPCI => decode_vendor_arm p calculated_pec VendorDefinedPCI 0
-  | VendorDefinedIANA => decode_vendor_arm p calculated_pec VendorDefinedIANA 1
-  | SpdmOverMctp => decode_vendor_arm p calculated_pec SpdmOverMctp 0
-  | SecuredMessages => decode_vendor_arm p calculated_pec SecuredMessages 0
+  | VendorDefinedPCI => decode_vendor_arm p calculated_pec VendorDefinedPCI
+  | VendorDefinedIANA => decode_vendor_arm p calculated_pec VendorDefinedIANA
+  | SpdmOverMctp => decode_vendor_arm p calculated_pec SpdmOverMctp
+  | SecuredMessages => decode_vendor_arm p calculated_pec SecuredMessages
   | MInvalid => err MInvalid DUnknown
   end.
 
-(* smbus.rs:340-352 *)
+(* smbus.rs:340-355 *)
 Definition get_length (p : list N) : rr nat :=
-  first3 <-- rlift (slice p 0 3) ;;
-  let shb := first3 ++ [0] in
-  if get_field sh_command_code shb =? 15
-  then ok (N.to_nat (get_field sh_byte_count shb) + 4)%nat
-  else err MInvalid DUnknown.
+  if (length p <? 3)%nat then err MInvalid DUnknown
+  else
+    first3 <-- rlift (slice p 0 3) ;;
+    let shb := first3 ++ [0] in
+    if get_field sh_command_code shb =? 15
+    then ok (N.to_nat (get_field sh_byte_count shb) + 4)%nat
+    else err MInvalid DUnknown.
